@@ -13,6 +13,7 @@ import (
 	"github.com/ossrs/go-oryx-lib/flv"
 	"pgregory.net/rapid"
 	"verif/harness/internal/ev"
+	"verif/harness/internal/ref/adtsref"
 	"verif/harness/internal/rtmpx"
 )
 
@@ -285,10 +286,7 @@ func runR(c RCase) error {
 func TestRandom(t *testing.T) {
 	ev.Rapid(t, "random-frames-and-bodies", 20000, 40000000, func(t *rapid.T) {
 		c := RCase{Kind: rapid.SampledFrom([]string{"audio-frame", "video-frame", "audio-body", "video-body"}).Draw(t, "kind")}
-		raw := rapid.SliceOfN(rapid.Byte(), 0, 40).Draw(t, "raw")
-		if rapid.IntRange(0, 9).Draw(t, "big") == 0 {
-			raw = rtmpx.Fill(rapid.IntRange(256, 2000).Draw(t, "biglen"), rapid.Uint64().Draw(t, "bigfill"))
-		}
+		raw := genRaw(t)
 		cl := []string{c.Kind}
 		nt := len(raw) > 255
 		switch c.Kind {
@@ -446,9 +444,35 @@ func runBatch(c BCase) error {
 
 var recBatch = ev.New(prop, "packager-reuse", "rapid-generated batches: one audio and one video packager each encode 2-6 frames (AAC/Opus/other; AVC/HEVC/other) before any tag is decoded; every tag must keep its bytes and decode to its own frame; all non-trivial")
 
+// genRaw draws a payload: arbitrary bytes, and bytes that look like something a media tool knows - a complete
+// ADTS frame, Annex B start codes, an FLV signature, an AVCC length prefix - since payloads are opaque to the
+// tag format; lengths also around the largest Opus frame (1275, RFC 6716) and the 8/16-bit boundaries.
+func genRaw(t *rapid.T) []byte {
+	switch rapid.IntRange(0, 11).Draw(t, "rawk") {
+	case 0:
+		return rtmpx.Fill(rapid.IntRange(256, 2000).Draw(t, "biglen"), rapid.Uint64().Draw(t, "bigfill"))
+	case 1:
+		return rtmpx.Fill(rapid.IntRange(1268, 1282).Draw(t, "opuslen"), rapid.Uint64().Draw(t, "opusfill"))
+	case 2:
+		// one complete, well-formed ADTS frame
+		n := rapid.SampledFrom([]int{1, 4, 30, 300}).Draw(t, "adtslen")
+		h := adtsref.Header{ID: uint8(rapid.IntRange(0, 1).Draw(t, "aid")), ProtectionAbsent: 1, Profile: uint8(rapid.IntRange(0, 2).Draw(t, "aprof")), SFI: uint8(rapid.IntRange(1, 12).Draw(t, "asfi")), Channels: uint8(rapid.IntRange(1, 7).Draw(t, "ach"))}
+		return adtsref.Write(h, rtmpx.Fill(n, rapid.Uint64().Draw(t, "adtsfill")))
+	case 3:
+		pre := rapid.SampledFrom([][]byte{{0, 0, 0, 1}, {0, 0, 1}, {0, 0, 0, 1, 0x67}, {'F', 'L', 'V', 1, 5, 0, 0, 0, 9}, {0, 0, 0, 5}, {0xff, 0xf1}, {0x17, 0, 0, 0, 0}, {0xaf, 1}}).Draw(t, "magic")
+		return append(append([]byte(nil), pre...), rapid.SliceOfN(rapid.Byte(), 0, 12).Draw(t, "magictail")...)
+	}
+	return rapid.SliceOfN(rapid.Byte(), 0, 40).Draw(t, "raw")
+}
+
 func genAF(t *rapid.T) AF {
 	a := AF{Format: rapid.SampledFrom([]uint8{10, 13, 13, 13, 2, 0}).Draw(t, "format"), Size: uint8(rapid.IntRange(0, 1).Draw(t, "size")), Type: uint8(rapid.IntRange(0, 1).Draw(t, "type")),
 		Raw: rapid.SliceOfN(rapid.Byte(), 1, 30).Draw(t, "raw")}
+	if rapid.IntRange(0, 2).Draw(t, "rawspecial") == 0 {
+		if r := genRaw(t); len(r) > 0 {
+			a.Raw = r
+		}
+	}
 	switch a.Format {
 	case 10:
 		a.Rate = uint8(rapid.IntRange(0, 3).Draw(t, "rate"))
@@ -474,6 +498,11 @@ func genBCase(t *rapid.T) BCase {
 	}
 	for i, n := 0, rapid.IntRange(2, 6).Draw(t, "nv"); i < n; i++ {
 		v := VF{Codec: rapid.SampledFrom([]uint8{7, 12, 2, 4}).Draw(t, "codec"), FType: uint8(rapid.IntRange(0, 15).Draw(t, "ftype")), Raw: rapid.SliceOfN(rapid.Byte(), 4, 30).Draw(t, "vraw")}
+		if rapid.IntRange(0, 2).Draw(t, "vrawspecial") == 0 {
+			if r := genRaw(t); len(r) >= 4 {
+				v.Raw = r
+			}
+		}
 		if v.Codec == 7 || v.Codec == 12 {
 			v.Trait = rapid.Uint8().Draw(t, "vtrait")
 			v.CTS = int32(rapid.IntRange(0, 1<<24-1).Draw(t, "cts"))
